@@ -69,12 +69,12 @@ type c04Case struct {
 }
 
 func genC04(t *rapid.T) c04Case {
-	c := c04Case{RF: rapid.SampledFrom([]int{1, 3, 3, 3}).Draw(t, "rf"), Batch: rapid.SampledFrom([]int{1, 4, 1024}).Draw(t, "batch"), OCC: rapid.IntRange(0, 4).Draw(t, "occ") == 0}
+	c := c04Case{RF: rapid.SampledFrom([]int{1, 2, 3, 3, 3}).Draw(t, "rf"), Batch: rapid.SampledFrom([]int{1, 4, 1024}).Draw(t, "batch"), OCC: rapid.IntRange(0, 4).Draw(t, "occ") == 0}
 	c.MinISR = rapid.SampledFrom([]int{1, 1, 2, 2, 3}).Draw(t, "minisr") // may exceed the replication factor: nothing can be committed then
 	n := rapid.IntRange(2, 18).Draw(t, "nops")
 	for i := 0; i < n; i++ {
 		kinds := []string{"publish", "publish", "publish", "bounce"}
-		if c.RF == 3 {
+		if c.RF > 1 {
 			kinds = append(kinds, "report", "report", "report", "shrink", "expand")
 		}
 		op := c04Op{Op: rapid.SampledFrom(kinds).Draw(t, "op"), Rep: rapid.IntRange(0, 1).Draw(t, "rep"), Frac: rapid.IntRange(0, 100).Draw(t, "frac")}
@@ -133,10 +133,7 @@ func runC04(c c04Case, o *vfutil.Obs) *vfutil.Failure {
 	}
 	defer vfL1Close(s)
 	name := fmt.Sprintf("ack%d", c04Seq)
-	replicas := []string{"a"}
-	if c.RF == 3 {
-		replicas = []string{"a", "b", "c"}
-	}
+	replicas := []string{"a", "b", "c"}[:c.RF]
 	index := uint64(1)
 	cfgp := &proto.StreamConfig{MinIsr: &proto.NullableInt32{Value: int32(c.MinISR)}}
 	if c.OCC {
@@ -320,6 +317,9 @@ func runC04(c c04Case, o *vfutil.Obs) *vfutil.Failure {
 
 	for step, op := range c.Ops {
 		rep := []string{"b", "c"}[op.Rep%2]
+		if c.RF == 2 {
+			rep = "b"
+		}
 		switch op.Op {
 		case "publish":
 			pols := map[int]bool{}
@@ -391,7 +391,7 @@ func runC04(c c04Case, o *vfutil.Obs) *vfutil.Failure {
 				return vfutil.Failf("C04/leader-log-length", "step %d, history %v: the leader's newest offset is %d, the model expects %d", step, hist, p.log.NewestOffset(), nextOffset-1)
 			}
 		case "report":
-			if c.RF != 3 {
+			if c.RF == 1 {
 				continue
 			}
 			o2 := int64(-1)
@@ -443,7 +443,7 @@ func runC04(c c04Case, o *vfutil.Obs) *vfutil.Failure {
 			hist = append(hist, "bounce")
 			o.Label("leader-partition-recreated")
 		case "shrink", "expand":
-			if c.RF != 3 {
+			if c.RF == 1 {
 				continue
 			}
 			index++
@@ -481,8 +481,8 @@ func runC04(c c04Case, o *vfutil.Obs) *vfutil.Failure {
 		}
 	}
 	// ---- quiescence: everyone in the ISR reports the end of the log
-	if c.RF == 3 {
-		for _, rep := range []string{"b", "c"} {
+	if c.RF > 1 {
+		for _, rep := range replicas[1:] {
 			if !isr[rep] {
 				continue
 			}
